@@ -72,6 +72,7 @@ class Cong:
         self.tables = {}
         self.sizes = {}
         self.bad_unknown = []
+        self._vcache = {}
         ps = tu.meta[fn]["params"]
         for nm in CONTAINER_ARGS:
             if nm in ps:
@@ -170,6 +171,29 @@ class Cong:
                 return (sea, 0)
             return None
         if k == "iv":
+            if len(a) > 2 and a[2] == "variant":
+                # a loop-carried value that is not an affine induction variable: least fixpoint of
+                # cong(φ) = cong(init) ⊔ cong(latch values under cong(φ))
+                if a in self._vcache:
+                    return self._vcache[a]
+                info = None
+                for li in self.sm.loops.values():
+                    if a in getattr(li, "variant_info", {}):
+                        info = li.variant_info[a]
+                if info is None:
+                    return (1, 0)
+                init, lats = info
+                cur = self.facts.cong(init)
+                for _ in range(6):
+                    self._vcache[a] = cur
+                    nxt = cur
+                    for t in lats:
+                        nxt = _cong_join(nxt, self.facts.cong(t))
+                    if nxt == cur:
+                        break
+                    cur = nxt
+                self._vcache[a] = cur
+                return cur
             init = self.it.iv_init.get(a)
             st = self.it.iv_step.get(a)
             if init is not None and st:
